@@ -220,11 +220,11 @@ class ExprMixin:
             for st2, rest in self.ev_list(nodes[1:], st1, sink):
                 yield st2, [v] + rest
 
-    def spec(self, expr, st, env=None, old=None, result=None, want_bool=True):
+    def spec(self, expr, st, env=None, old=None, result=None, want_bool=True, isolate=False):
         """evaluate a spec expression (string or AST) to a z3 term in state `st`.
         `env` adds/overrides names; `old` is the state old(...) refers to."""
         node = parse_spec(expr)
-        e = dict(st.env)
+        e = dict(st.env) if not isolate else {}
         if env:
             e.update(env)
         if result is not None:
